@@ -22,7 +22,7 @@ import (
 	fsreader "github.com/containerd/stargz-snapshotter/fs/reader"
 	"github.com/containerd/stargz-snapshotter/metadata"
 	memorymeta "github.com/containerd/stargz-snapshotter/metadata/memory"
-	dbmeta "github.com/containerd/stargz-snapshotter/metadata/verifdb"
+	dbmeta "github.com/containerd/stargz-snapshotter/cmd/containerd-stargz-grpc/db"
 	digest "github.com/opencontainers/go-digest"
 	bolt "go.etcd.io/bbolt"
 )
